@@ -151,18 +151,19 @@ Definition ns_w := 604800000000000%Z.
 Definition zdigits (z : Z) : str :=
   if (z <? 0)%Z then 45 :: digits (Z.to_N (- z)) else digits (Z.to_N z).
 
-(* FormatDuration; Go's % and / truncate toward zero: Z.rem / Z.quot *)
-Definition fmt_unit (z u : Z) (suffix : str) : str := zdigits (Z.quot z u) ++ suffix.
+(* FormatDuration; Go's % and / truncate toward zero: Z.rem / Z.quot.  The unit chosen and its suffix. *)
+Definition dur_unit (repaired : bool) (z : Z) : Z * str :=
+  if (Z.rem z ns_w =? 0)%Z then (ns_w, [119])
+  else if (Z.rem z ns_d =? 0)%Z then (ns_d, [100])
+  else if (Z.rem z ns_h =? 0)%Z then (ns_h, [104])
+  else if (Z.rem z ns_m =? 0)%Z then (ns_m, [109])
+  else if (Z.rem z ns_s =? 0)%Z then (ns_s, [115])
+  else if (Z.rem z ns_ms =? 0)%Z then (ns_ms, [109; 115])
+  else if repaired && negb (Z.rem z ns_us =? 0)%Z then (1%Z, [110; 115])
+  else (ns_us, [117]).
 Definition format_duration_gen (repaired : bool) (z : Z) : str :=
   if (z =? 0)%Z then [48; 115]
-  else if (Z.rem z ns_w =? 0)%Z then fmt_unit z ns_w [119]
-  else if (Z.rem z ns_d =? 0)%Z then fmt_unit z ns_d [100]
-  else if (Z.rem z ns_h =? 0)%Z then fmt_unit z ns_h [104]
-  else if (Z.rem z ns_m =? 0)%Z then fmt_unit z ns_m [109]
-  else if (Z.rem z ns_s =? 0)%Z then fmt_unit z ns_s [115]
-  else if (Z.rem z ns_ms =? 0)%Z then fmt_unit z ns_ms [109; 115]
-  else if repaired && negb (Z.rem z ns_us =? 0)%Z then fmt_unit z 1%Z [110; 115]
-  else fmt_unit z ns_us [117].
+  else let '(u, suffix) := dur_unit repaired z in zdigits (Z.quot z u) ++ suffix.
 Definition format_duration_current := format_duration_gen false.
 Definition format_duration_repaired := format_duration_gen true.
 
